@@ -1311,7 +1311,8 @@ class DesignSpace:
         # Normalization will not work with integers.
         if current_x_dtype.kind == "i":
             current_x_dtype = self.__FLOAT_DTYPE
-            recast_to_int = True
+            # The float variables may have integer current values.
+            recast_to_int = bool(self.__integer_components.all())
 
         if out.dtype != current_x_dtype:
             out = out.astype(current_x_dtype, copy=False)
